@@ -25,6 +25,7 @@ var tiers = map[string][3]int{
 	"C20": {1500, 30000, 0},
 	"C08": {400, 8000, 0},
 	"C17": {2500, 30000, 0},
+	"C18": {1000, 25000, 0},
 }
 
 func tierOf(id string, thorough bool) tierCfg {
@@ -96,5 +97,9 @@ func init() {
 	props["C17"] = propCfg{
 		Rule:        "workspaces of four files built from 19 fragments that trigger the diagnostic types 2-10, 12-21 (plus a file with a syntax error, type 1), at random; configurations: random subsets of the 25 flags with forced shapes (all but one, single one, the five cross-file flags off), master switch, error-ignore lists and analysis-exclusion lists over literal file names, folder names and regular expressions, per-file type rules (json route); delivered by initializationOptions, by workspace/didChangeConfiguration (sent twice) or by luahelper.json; one case in eight carries malformed settings (invalid regular expressions, truncated JSON, wrongly typed values, unknown keys). Oracle (differential / metamorphic): D_c must equal filter(D_all, c), where D_all is the view of the all-enabled run by the same route and filter removes a diagnostic iff its type is off, the master switch is off, or its file matches an ignore / exclusion / per-file type rule as documented; malformed settings must leave the server alive and either be rejected by initialize or behave as if the bad entry were absent. Non-trivial: a configuration that removes >= 1 and keeps >= 1 diagnostic of D_all; distinct by case.",
 		Assumptions: append([]string{"files are self-contained, so excluding a file from analysis changes only its own diagnostics", "file and folder names are chosen so that patterns cannot match the scratch directory's own path"}, commonAssume...),
+	}
+	props["C18"] = propCfg{
+		Rule:        "directory trees drawn from a universe with nested modules, duplicate base names (alpha.lua, mods/alpha.lua), init.lua packages (pkg/init.lua, deep/x/init.lua), a three-level path and a native .so; a main file with 1-6 require calls (dotted, slashed, single-name, partial-path and non-existing module strings) and 0-2 dofile calls with suffixed paths; RequirePathSeparator '.' or '/'; then 0-6 create / delete events of the Lua files (disk operation + didChangeWatchedFiles). After the initial analysis and after every event: the reference resolver (module string -> path with '.' as '/', candidates = files equal to or ending in /path.lua, else /path/init.lua; a .so at the root tolerated) decides: type-6 diagnostic on the call iff no candidate; go-to-definition on the string is empty iff no candidate, else the start of a candidate; hover names a Lua file iff a candidate exists and the path it shows is a suffix of the file go-to-definition opened. Non-trivial: a module string with >= 2 path components that resolves, or an answer that changes during the history; distinct by case.",
+		Assumptions: append([]string{"don't-care: which of several candidates is chosen, dotted names under the '/' separator setting, native modules created or deleted after start-up, precedence between a .so and a Lua file of the same name, ReferMatchPathFlag mode, frame import functions"}, commonAssume...),
 	}
 }
